@@ -101,3 +101,65 @@ pub fn default_scripts() -> Vec<WScript> {
         WScript { code: 2, hash_type: 1, args: vec![] },
     ]
 }
+
+/// Transaction-graph generator: keeps, per block, the set of live cells (of world scripts) after it.
+pub struct TxGen {
+    pub live_after: std::collections::HashMap<usize, Vec<(usize, usize)>>,
+    pub nscripts: usize,
+    pub max_txs: usize,
+}
+
+impl TxGen {
+    pub fn new(nscripts: usize, max_txs: usize) -> Self {
+        let mut live_after = std::collections::HashMap::new();
+        live_after.insert(0usize, Vec::new());
+        TxGen { live_after, nscripts, max_txs }
+    }
+
+    fn gen_block_txs(&mut self, chain: &SimChain, parent: usize, rng: &mut StdRng) -> (Vec<super::world::WTx>, Vec<(usize, usize)>) {
+        use super::world::{WCell, WTx};
+        let mut live = self.live_after.get(&parent).cloned().unwrap_or_default();
+        let first_tx_id = chain.txs.len(); // cellbase gets this id, then the block's txs
+        let ntx = rng.gen_range(0..=self.max_txs);
+        let mut txs = Vec::new();
+        for k in 0..ntx {
+            let tid = first_tx_id + 1 + k;
+            let nin = if live.is_empty() || rng.gen_bool(0.2) { 0 } else { rng.gen_range(1..=std::cmp::min(2, live.len())) };
+            let mut inputs = Vec::new();
+            for _ in 0..nin {
+                let j = rng.gen_range(0..live.len());
+                inputs.push(live.swap_remove(j));
+            }
+            let nout = rng.gen_range(1..=3usize);
+            let mut outputs = Vec::new();
+            for o in 0..nout {
+                let lock = rng.gen_range(0..self.nscripts);
+                let type_ = if rng.gen_bool(0.3) { Some(rng.gen_range(0..self.nscripts)) } else { None };
+                outputs.push(WCell { lock, type_, cap: rng.gen_range(100..1000), data_len: [0usize, 8, 9, 20][rng.gen_range(0..4)] });
+                live.push((tid, o));
+            }
+            txs.push(WTx { inputs, outputs });
+        }
+        (txs, live)
+    }
+}
+
+/// Like `extend`, with generated transactions in every block.
+pub fn extend_with_txs(
+    chain: &mut SimChain,
+    parent: usize,
+    count: usize,
+    p: &ChainParams,
+    rng: &mut StdRng,
+    tg: &mut TxGen,
+) -> usize {
+    let mut cur = parent;
+    for _ in 0..count {
+        let (epoch, diff) = next_epoch(chain, cur, p, rng);
+        let (txs, live) = tg.gen_block_txs(chain, cur, rng);
+        let id = chain.add_block(&WBlock { parent: cur as i64, diff, epoch, pow: true, root: true, txs });
+        tg.live_after.insert(id, live);
+        cur = id;
+    }
+    cur
+}
